@@ -140,80 +140,97 @@ def rebootLoop (opts : InstallSource) (t30 : Nat) (pingNeed : List Nat) :
         if ans then (some true, w) else rebootLoop .onDemand t30 pingNeed rest answers nexts w
       else rebootLoop opts t30 pingNeed rest answers nexts w
 
+/-- The waiting part of `wait_for_reboot`: the first question, then (if refused) the 30-minute
+timer, the ping schedule and the loop. `some true` = reboot now. -/
+def rebootWait (opts : InstallSource) (u : UnitEnv) (w : World) : Option Bool × World :=
+  let w := emit (.policyRebootAllowed opts (popBool u.rebootAllowed).1) w
+  if (popBool u.rebootAllowed).1 then (some true, w)
+  else
+    let w := emit (.timerArm (.for_ (1800 * 1000000000))) w
+    let t30 := w.nTimer
+    let w := { w with nTimer := w.nTimer + 1 }
+    let w := updateNext (popTiming u.rebootNext).1 w
+    let (need, w) := armWait (popTiming u.rebootNext).1 w
+    rebootLoop opts t30 need u.rebootSteps (popBool u.rebootAllowed).2 (popTiming u.rebootNext).2 w
+
+/-- The reboot is attempted exactly when the wait ended with a positive answer. -/
+def doReboot (u : UnitEnv) (p : Option Bool × World) : Option Bool × World :=
+  match p.1 with
+  | some true => (some true, emit (.reboot u.rebootOk) p.2)
+  | other => (other, p.2)
+
 /-- `wait_for_reboot`. Returns `some true` when the reboot was attempted. -/
 def waitForReboot (opts : InstallSource) (u : UnitEnv) (w : World) : Option Bool × World :=
-  let (first, answers) := popBool u.rebootAllowed
-  let w := emit (.policyRebootAllowed opts first) w
-  let (done, w) :=
-    if first then (some true, w)
-    else
-      let w := emit (.timerArm (.for_ (1800 * 1000000000))) w
-      let t30 := w.nTimer
-      let w := { w with nTimer := w.nTimer + 1 }
-      let (t, nexts) := popTiming u.rebootNext
-      let w := updateNext t w
-      let (need, w) := armWait t w
-      rebootLoop opts t30 need u.rebootSteps answers nexts w
-  match done with
-  | some true => (some true, emit (.reboot u.rebootOk) w)
-  | other => (other, w)
+  doReboot u (rebootWait opts u w)
 
 inductive UnitResult where
   | completed | stalled | outside
   deriving Repr, DecidableEq
 
+/-- The pending waited-for-reboot report, retried at the top of every loop iteration until it
+succeeds: metric, removal of both keys, commit. -/
+def waitedStep (rs : RunState) (w : World) : RunState × World :=
+  if rs.shouldReport then
+    match rs.finishTime with
+    | some fin =>
+      match reportWaited fin rs.startMono w with
+      | some w =>
+        let w := storeOp_ (.remove kFinishTime) w
+        let w := storeOp_ (.remove kTargetVersion) w
+        ({ rs with shouldReport := false }, storeOp_ .commit w)
+      | none => (rs, w)
+    | none => (rs, w)
+  else (rs, w)
+
+/-- What follows a check in `run`: Idle, or WaitingForReboot, the reboot wait, and Idle. -/
+def afterCheck (u : UnitEnv) (opts : InstallSource) (reboot : Option Bool) (w : World) : UnitResult × World :=
+  match reboot with
+  | none => (.outside, w)
+  | some false => (.completed, yieldEv (.state .idle) w)
+  | some true =>
+    let w := yieldEv (.state .waitingForReboot) w
+    let (r, w) := waitForReboot opts u w
+    match r with
+    | none => (.outside, w)
+    | some false => (.stalled, w)
+    | some true => (.completed, yieldEv (.state .idle) w)
+
+/-- Control requests arriving during the check are answered AlreadyRunning. -/
+def replyDuring (during : List (Nat × InstallSource)) (w : World) : World :=
+  during.foldl (fun w (id, _) => emit (.reply id .alreadyRunning) w) w
+
+/-- An on-demand request during the check upgrades the options used for the reboot question. -/
+def upgradeOpts (during : List (Nat × InstallSource)) (opts : InstallSource) : InstallSource :=
+  if during.any (fun (_, src) => src == .onDemand) then .onDemand else opts
+
+def replyCtl (ctl : Option Nat) (r : Reply) (w : World) : World :=
+  match ctl with
+  | some id => emit (.reply id r) w
+  | none => w
+
+/-- The wait is over (all timers fired: `ctl = none`, default options; or a control request):
+ask the policy, reply, and run the check if allowed. -/
+def decideAndCheck (u : UnitEnv) (opts : InstallSource) (ctl : Option Nat) (w : World) : UnitResult × World :=
+  let w := emit (.policyAllowed w.apps w.ctx.sched w.ctx.st opts u.allow) w
+  match u.allow with
+  | .tooSoon | .throttled | .denied => (.completed, replyCtl ctl .throttled w)
+  | .ok params | .okUpdateDeferred params =>
+    let w := replyDuring u.during (replyCtl ctl .started w)
+    let (reboot, w) := startUpdateCheck params w
+    afterCheck u (upgradeOpts u.during opts) reboot w
+
 /-- One iteration of `run`'s loop. -/
 def runUnit (u : UnitEnv) (rs : RunState) (w : World) : UnitResult × RunState × World :=
   let w := { w with env := u.env, nTimer := 0 }
-  -- report the waited-for-reboot duration if pending
-  let (rs, w) :=
-    if rs.shouldReport then
-      match rs.finishTime with
-      | some fin =>
-        match reportWaited fin rs.startMono w with
-        | some w =>
-          let w := storeOp_ (.remove kFinishTime) w
-          let w := storeOp_ (.remove kTargetVersion) w
-          ({ rs with shouldReport := false }, storeOp_ .commit w)
-        | none => (rs, w)
-      | none => (rs, w)
-    else (rs, w)
+  let (rs, w) := waitedStep rs w
   let w := updateNext u.next w
   let (need, w) := armWait u.next w
   let (wake, w) := outerWait need u.wake w
   let w := tick u.wakeDt w
   match wake with
   | .stalled => (.stalled, rs, w)
-  | _ =>
-    let (opts, ctl) : InstallSource × Option Nat := match wake with
-      | .ctl id src => (src, some id)
-      | _ => (.scheduledTask, none)
-    let w := emit (.policyAllowed w.apps w.ctx.sched w.ctx.st opts u.allow) w
-    match u.allow with
-    | .tooSoon | .throttled | .denied =>
-      let w := match ctl with
-        | some id => emit (.reply id .throttled) w
-        | none => w
-      (.completed, rs, w)
-    | .ok params | .okUpdateDeferred params =>
-      let w := match ctl with
-        | some id => emit (.reply id .started) w
-        | none => w
-      -- requests arriving during the check are answered AlreadyRunning; an on-demand one
-      -- upgrades the options used for the reboot question
-      let w := u.during.foldl (fun w (id, _) => emit (.reply id .alreadyRunning) w) w
-      let opts := if u.during.any (fun (_, src) => src == .onDemand) then .onDemand else opts
-      let (reboot, w) := startUpdateCheck params w
-      match reboot with
-      | none => (.outside, rs, w)
-      | some false => (.completed, rs, yieldEv (.state .idle) w)
-      | some true =>
-        let w := yieldEv (.state .waitingForReboot) w
-        let (r, w) := waitForReboot opts u w
-        match r with
-        | none => (.outside, rs, w)
-        | some false => (.stalled, rs, w)
-        | some true => (.completed, rs, yieldEv (.state .idle) w)
+  | .timers => let (r, w) := decideAndCheck u .scheduledTask none w; (r, rs, w)
+  | .ctl id src => let (r, w) := decideAndCheck u src (some id) w; (r, rs, w)
 
 /-- `StateMachineBuilder::build`: load apps and context from storage. `none` = a stored app
 record is outside the model's JSON domain. -/
